@@ -57,6 +57,8 @@ partial def tyOf : Sexp → Option Ty
       if intOk l && intOk h && l ≤ h then some (.hash k v l h) else none
   | .list [.atom "like", t, n] => do let t ← tyOf t; let n ← n.bytes?; pure (.like t n)
   | .atom "callable" => some (.callable false [] false .any false .any)
+  | .atom "init" => some (.init false .any)
+  | .list [.atom "init", t] => (tyOf t).map (.init true)
   -- (callablex n|(T*) n|R n|B): parameter Tuple, return type, block type, each absent (n) or given
   | .list [.atom "callablex", ps, r, b] => do
       let (h, ts) ← (match ps with
@@ -187,6 +189,8 @@ partial def tyStr : Ty → String
   | .like t n => "(like " ++ tyStr t ++ " " ++ hexB n ++ ")"
   | .runtime rt n none => "(runtime " ++ hexB rt ++ " " ++ hexB n ++ " n)"
   | .runtime rt n (some p) => "(runtime " ++ hexB rt ++ " " ++ hexB n ++ " " ++ hexB p ++ ")"
+  | .init false _ => "init"
+  | .init true t => "(init " ++ tyStr t ++ ")"
   | .struct es => "(struct" ++ String.join (es.map fun (n, o, v) => " (" ++ hexB n ++ " " ++ (if o then "o" else "r") ++ " " ++ tyStr v ++ ")") ++ ")"
   | .callable false _ false _ false _ => "callable"
   | .callable true ts false _ false _ => "(callable" ++ String.join (ts.map fun t => " " ++ tyStr t) ++ ")"
